@@ -92,7 +92,7 @@ class Elaborator:
         try:
             for elabpass in self.passes:
                 tops = elabpass.elaborate(tops=tops)
-        except Exception:
+        except BaseException:
             # Modules visited before the failure are part-way through our passes, which will not visit them again.
             # Complete each which can be completed, so that none remains editable while only some passes would see the edits.
             # (Those depending on the failing Module fail again, and are remembered as such.)
